@@ -46,6 +46,9 @@ structure CompIR where
   /-- further parameters (not used by any statement) and default values as source text (`no_depend=False`) -/
   extraParams : List String
   defaults : List (String × String)
+  /-- where every global name the function uses comes from (`translate/cores.py` resolves imports to definitions):
+  `(name, "def <file>:<name>" | "class <file>:<name>" | "module <m>" | "builtin" | "from <file>:<name>")`, sorted by name -/
+  origins : List (String × String)
   /-- `if not np.all(<guardL> == <guardR>.T): raise <exc>(…)` -/
   guardL : String
   guardR : String
@@ -228,7 +231,10 @@ def refBody : List OStmt :=
     .assignList "union_sets" "temp" ]
 
 def refIR : CompIR :=
-  { recognised := true, param := "A", extraParams := ["no_depend"], defaults := [("no_depend", "False")], guardL := "A", guardR := "A", exc := "BCTParamError",
+  { recognised := true, param := "A", extraParams := ["no_depend"], defaults := [("no_depend", "False")],
+    origins := [("BCTParamError", "class bct/utils/miscellaneous_utilities.py:BCTParamError"), ("binarize", "def bct/utils/other.py:binarize"),
+                ("len", "builtin"), ("np", "module numpy"), ("range", "builtin")],
+    guardL := "A", guardR := "A", exc := "BCTParamError",
     binTarget := "A", binArg := "A", dim := "n", dimOf := "A", diagMat := "A", diagVal := 1,
     em := "edge_map", e1 := "u", e2 := "v", outer := "u", ob := "n", inner := "v", ib := "n", emMat := "A", row := "u", col := "v",
     emLit := 1,
